@@ -516,6 +516,19 @@ func c14r4(c *an.Ctx) {
 	if sp != nil {
 		repl, _ = sp.Members["nlSpace"].(*ssa.Global)
 	}
+	if repl == nil && sp != nil {
+		// whatever it is called: the one package-level *strings.Replacer of the package
+		n := 0
+		for _, m := range sp.Members {
+			if g, ok := m.(*ssa.Global); ok && strings.HasSuffix(g.Type().String(), "*strings.Replacer") {
+				repl = g
+				n++
+			}
+		}
+		if n != 1 {
+			repl = nil
+		}
+	}
 	if repl == nil {
 		panic(&an.Unresolved{What: "drpchttp.nlSpace"})
 	}
@@ -829,9 +842,9 @@ func c14r5(c *an.Ctx) {
 		}
 		for i, e := range phi.Edges {
 			if k, isC := an.ConstInt(e); isC {
-				for _, gd := range an.GuardsOf(phi.Block().Preds[i]) {
-					if b, isB := gd.Cond.(*ssa.BinOp); isB && gd.True && b.Op == token.EQL {
-						if z, isZ := an.ConstInt(b.Y); isZ && z == 0 {
+				for _, gd := range an.GuardsOfEdge(phi.Block().Preds[i], phi.Block()) {
+					if cmp, isCmp := an.CmpOf(gd); isCmp && cmp.Op == token.EQL {
+						if z, isZ := an.ConstInt(cmp.Y); isZ && z == 0 {
 							fallback = int(k)
 						}
 					}
@@ -938,7 +951,32 @@ func c14r5(c *an.Ctx) {
 		an.Instrs(fn, func(in ssa.Instruction) {
 			check := func(val ssa.Value, blk *ssa.BasicBlock) {
 				cst, ok := val.(*ssa.Const)
-				if !ok || cst.Value == nil || cst.Value.Kind() != constant.String {
+				if !ok || cst.Value == nil {
+					return
+				}
+				// the status as a number, fixed up before it is formatted
+				if cst.Value.Kind() == constant.Int {
+					if k, isK := constant.Int64Val(cst.Value); isK && k != 0 {
+						nonNil, isZero := false, false
+						for _, gd := range an.GuardsOf(blk) {
+							if x, trueNonNil, isNil := nilTestOf(gd.Cond); isNil && gd.True == trueNonNil && sameErrParam(x, gerr) {
+								nonNil = true
+							}
+							if cmp, isCmp := an.CmpOf(gd); isCmp && cmp.Op == token.EQL {
+								if z, isZ := an.ConstInt(cmp.Y); isZ && z == 0 {
+									if call, isCall := an.Unwrap(cmp.X).(*ssa.Call); isCall && call.Common().StaticCallee() != nil && call.Common().StaticCallee().Name() == "Code" {
+										isZero = true
+									}
+								}
+							}
+						}
+						if nonNil && isZero {
+							okRewrite = true
+						}
+					}
+					return
+				}
+				if cst.Value.Kind() != constant.String {
 					return
 				}
 				s := constant.StringVal(cst.Value)
